@@ -24,4 +24,58 @@ CLAIMS = {
        're-spellings (no iptables binary in the sandbox); the harness vlib/c05.py. Partial: the normaliser is tied by correspondence, the '
        'soundness theorem covers the structural diff; real kernel behaviour cannot be exhibited.',
   technique='Coq proof of route-script convergence on a kernel-table semantics + exact differential of drc output against the Gallina model'),
+ 'C01': dict(
+  text='asa_conv_partial: the line-number core of diffASAACLs (inserts, deletes, joined moves incl. log changes) is a Gallina model '
+       'proved correct for EVERY valid edit script between entry lists without repeated bodies (C01_asa_acl_lines_converge_partial, '
+       'C01_asa_acl_unchanged_only_if_equal) and compared command by command with the implementation using the edit script of the '
+       'library the tool calls. Whole configurations (several interfaces, shared ACLs, object-groups reused/edited/duplicated/split, '
+       'rebinding, routes, unmanaged content) are decided by executing the implementation\'s script on the strict Coq device semantics '
+       'and checking equivalence with the target plus a silent second compare by the real tool.',
+  design_ref='DESIGN.md section 4, C01',
+  note='Trusted: Coq kernel; strict ASA device semantics (Cisco/Device.v); script parser and generator (vlib/cisco.py). Partial: object-group '
+       'logic and multi-ACL flow are not proved; crypto maps, tunnel-groups, group-policies, users, pools, certificate maps are not modelled.',
+  technique='Coq proof of the ACL line core for all valid edit scripts + execution of the real script on a Coq device semantics'),
+ 'C02': dict(
+  text='The numbering core of diffIOSACLs (resequence, numbered inserts, deletes, joined moves, direction-aware move suppression inside '
+       'blocks, block splitting) is an executable Gallina model compared number by number with the implementation and executed on a strict '
+       'numbered-ACL device; equivalence modulo permutation inside same-action runs is evaluated in Coq on both scripts. Whole IOS '
+       'configurations (interfaces, shared ACLs, routes) are executed on the Coq device semantics with a silent second compare.',
+  design_ref='DESIGN.md section 4, C02',
+  note='Trusted: as C01. Partial: the general theorem ios_acl_equiv is not yet proved (stated in DESIGN.md); the model is tied by exact '
+       'correspondence and its convergence is evaluated per case in Coq. Log attribute differences inside a block are not applied by the '
+       'tool (documented observation, not part of filtering).',
+  technique='Executable Gallina model of the IOS numbering core checked against the implementation + Coq device semantics as oracle'),
+ 'C07': dict(
+  text='C07_frame_every_prefix: on the strict device semantics an accepted command changes only the objects it names, hence a script that '
+       'never names an ACL, object-group, binding or route outside Netspoc\'s scope leaves them untouched after every prefix (interrupted runs '
+       'included). The premise is evaluated on every script the implementation prints for devices with interleaved unmanaged content '
+       '(unknown interface with in+out ACLs, unused manual objects, generated-looking objects referenced only by unmanaged ones, routes of '
+       'unmanaged families); the conclusion is also observed directly after each step.',
+  design_ref='DESIGN.md section 4, C07',
+  note='Trusted: Coq kernel; device semantics; generator of unmanaged content. PAN-OS / NSX halves are covered under C03/C04 when built.',
+  technique='Coq footprint/frame theorem over the device semantics + per-step projection check of real scripts'),
+ 'C08': dict(
+  text='C08_asa_acl_every_prefix_accepted_partial: for the ASA line core every command of every prefix is accepted by the strict device '
+       '(line numbers address the intended entry, no entry is added twice modulo log). For whole ASA and IOS configurations the real script '
+       'is executed command by command on the strict Coq device (missing reference, still-referenced delete, duplicate entry, wrong line or '
+       'sequence number, wrong configuration mode, duplicate route are refusals).',
+  design_ref='DESIGN.md section 4, C08',
+  note='Trusted: as C01; strictness rules of Cisco/Device.v are the property text. PAN-OS/NSX executability is under C03/C04.',
+  technique='Coq proof for the ASA line core + strict Coq device executing real scripts'),
+ 'C10': dict(
+  text='C10_asa_acl_resume_partial: after any prefix of the ASA line script the device list is again duplicate-free, and every valid edit '
+       'script from that state converges to the same target. For whole ASA/IOS configurations every prefix state of the real script is '
+       'rendered by the Coq device, the real tool is run again on it, its script is executed on the Coq device, and a third compare must be silent.',
+  design_ref='DESIGN.md section 4, C10',
+  note='Trusted: as C01. Cuts between the halves of a joined command are covered by C10_device_states_stay_wellformed for the core only.',
+  technique='Coq resumability theorem for the line core + prefix-state replay of real scripts through the Coq device'),
+ 'C14': dict(
+  text='C14_linux_routes_covered_stepwise: Coq theorem (all route lists, every prefix). ACL half: after every command of the real script the '
+       'verdict of every packet of a finite universe on which old and new ACL agree is evaluated in Coq, on whole configurations and on '
+       'single-ACL cores for ASA and IOS; failures are classified by two decidable input predicates (known findings F-C14-1, F-C14-2), '
+       'anything else is a violation.',
+  design_ref='DESIGN.md section 4, C14',
+  note='Trusted: Coq kernel; abstract matchers (one pseudo-random packet set per entry body); IOS semantics "an ACL without entries permits '
+       'everything". The general stepwise theorem is refuted for the current algorithm (see known findings); the proved part is the route half.',
+  technique='Coq theorem for route coverage + per-step verdict evaluation of real scripts in Coq with known-finding predicates'),
 }
